@@ -93,10 +93,15 @@ func mutateReq(r *R, q Req, other []Req) Req {
 
 func (c10) Gen(r *R, tier string) any {
 	p := &C10Plan{Cfg: genCfg(r), Debug: r.P(0.4)}
-	if r.P(0.35) {
-		p.PresetVary = []string{pick(r, []string{"before", "Accept-Encoding", "Accept-Encoding, Cookie", "origin"})}
-		if r.P(0.3) {
-			p.PresetVary = append(p.PresetVary, "X-Second")
+	if r.P(0.4) {
+		// what an outer middleware may have put there: unrelated names, names that
+		// CONTAIN the middleware's own Vary names, case variants, the names themselves
+		vocab := []string{"before", "Accept-Encoding", "Cookie", "Accept-Encoding, Cookie", "origin", "Origin", "ORIGIN",
+			"X-Original-Host", "X-Forwarded-Origin", "X-Origin", "Origin-Agent-Cluster", "Sec-Fetch-Site", "X-Original-URL, Accept",
+			"Access-Control-Request-Method", "access-control-request-headers", "X-Access-Control-Request-Headers",
+			"Access-Control-Request-Private-Network", "Accept-Encoding, X-Original-Host", "X-Second"}
+		for n := pick(r, []int{1, 1, 1, 2, 3}); n > 0; n-- {
+			p.PresetVary = append(p.PresetVary, pick(r, vocab))
 		}
 	}
 	suite := probeSuite(p.Cfg)
